@@ -35,6 +35,10 @@ func init() {
 				switch r.n(5) {
 				case 0, 1:
 					d := g.customDecor()
+					if r.chance(1, 5) {
+						// the empty decoration is a value like any other: the name is registered and listed
+						d = showDecor(decoration.Decoration{})
+					}
 					g.do("register " + hx(n) + " " + d)
 					ref[n] = d
 				case 2:
@@ -67,6 +71,9 @@ func init() {
 					}
 					res := g.do("setdecornamed " + w + " " + hx(name))
 					_, known := ref[name]
+					if ref[name] == showDecor(decoration.Decoration{}) {
+						known = false // registered with the empty value: selecting it is refused like an unknown name
+					}
 					if (res == "ok") != known {
 						viol = append(viol, fmt.Sprintf("SetDecorationNamed(%q) = %s, registered=%v", name, res, known))
 					}
